@@ -31,6 +31,16 @@ def loadSimple (hinted bc : Bool) (scale : Int) (m : GM) (pts : List Vec) : List
   (pts.map fun q => Vec.mk (mulFix q.x scale) (mulFix q.y scale),
    phRound hinted bc (mulFix (setPp m).1 scale), phRound hinted bc (mulFix (setPp m).2 scale))
 
+/-- `TT_Hint_Glyph` with `n_ins > 0`, the phantom points of the zone: FIRST `FT_ARRAY_COPY( zone->org,
+zone->cur, zone->n_points )`, THEN `zone->cur[n-4].x = FT_PIX_ROUND( … )`, `cur[n-3].x`, `cur[n-2].y`,
+`cur[n-1].y`: `(org, cur)`. -/
+def hintPhantom (pp : List Vec) : List Vec × List Vec :=
+  let org := pp
+  let cur := match pp with
+    | [p1, p2, p3, p4] => [⟨pixRound p1.x, p1.y⟩, ⟨pixRound p2.x, p2.y⟩, ⟨p3.x, pixRound p3.y⟩, ⟨p4.x, pixRound p4.y⟩]
+    | _ => pp
+  (org, cur)
+
 /-- `FT_Vector_Transform` with `transform.xx = (FT_Fixed)FT_NEXT_SHORT * 4`. -/
 def xform (c : Comp) (q : Vec) : Vec :=
   let xx := c.xx * 4
